@@ -32,6 +32,38 @@ def run(ck):
         elif held_exp != held_got:
             ck.violation("C19:%s:%s:state" % (backend, op["m"]), "%s %s in state %s: lease held=%s afterwards, the contract says %s"
                          % (backend, json.dumps(op), kvlib.canon(e["from"]), held_got, held_exp), rep)
+    # leases must move with the key: lease-only keys are listed by RangeKeys, exported and imported with their token (range family of KVStore)
+    if ck.replay is None or ck.replay.get("family") == "range":
+        r2 = ck.tlc("MC_KVStore", "MC_KVStore_range.cfg")
+        rw = [w for w in kvlib.covering_walks(r2.printed, ck.rng, maxlen=40) if any(e["op"]["m"] == "acquire" for e in w)]
+        ck.rng.shuffle(rw)
+        rw = rw[:60 if ck.thorough else 20] if ck.replay is None else [ck.replay["walk"]]
+        keys3, hash3 = [["a"], ["a", "b"], ["b"]], [1, 2, 2]
+        names3 = ["".join(k) for k in keys3]
+        for backend, wi, si, e, step, case in kvlib.run_walks(ck, b, rw, keys3, hash3, drv_args=["clock"], sigprefix="C19"):
+            op = e["op"]
+            if not any(e["from"]["lease"]):
+                continue
+            ck.count((backend, "range", kvlib.canon(e["from"]), json.dumps(op, sort_keys=True)), True)
+            rep = {"walk": rw[wi][:si + 1], "backend": backend, "family": "range"}
+            got = step["ret"]
+            if op["m"] == "rangekeys":
+                want = sorted("".join(x) for x in e["ret"]["ks"])
+                if sorted(got.get("ks", [])) != want and set(want) - set(got.get("ks", [])):
+                    missing = sorted(set(want) - set(got.get("ks", [])))
+                    lease_only = [k for k in missing if e["from"]["lease"][names3.index(k)] and not e["from"]["simple"][names3.index(k)] and not e["from"]["kids"][names3.index(k)]]
+                    if lease_only:
+                        ck.violation("C19:%s:lease-only-key-not-in-range" % backend,
+                                     "%s RangeKeys%s does not list key(s) %s that hold only a lease: the lease would stay behind when the range moves to another node"
+                                     % (backend, (op["lo"], op["hi"]), lease_only), rep)
+            elif op["m"] == "xfer":
+                for into in kvlib.BACKENDS:
+                    o = got.get(into) or {}
+                    want = [bool(x) for x in e["ret"]["lease"]]
+                    if o.get("lease") != want or not all(o.get("tokens_equal", [False])):
+                        ck.violation("C19:%s->%s:lease-lost-in-transfer" % (backend, into),
+                                     "keys %s exported from %s and imported into %s: leases held afterwards %s (tokens equal %s), expected %s"
+                                     % (op["ks"], backend, into, o.get("lease"), o.get("tokens_equal"), want), rep)
     ck.exhaustive = True
     ck.rule = ("TLC emits every edge of the lease model: one lease, TTLs {0.5,1,1.5,2 s}, ticks of 0.5 s and 1.5 s up to 4 s, acquire / renew / "
                "release with the current, a stale, a forged and the zero token; instants with now = expiry are excluded (DESIGN 4.0); "
